@@ -176,14 +176,70 @@ def spmResid (j : Json) : R Json := do
   let x ← fld j "X" >>= asList (asList asRat)
   let n := data.length
   let q := ncols x
-  let (res, beta) := spmResiduals n q runs (matFn w) (matFn pinv) (matFn x) (matFn data)
-  pure (obj [("residuals", ofList (ofList ofRat) (fnMat n (ncols data) res)),
-             ("beta", ofList (ofList ofRat) (fnMat q (ncols data) beta))])
+  -- `spmResiduals`, stage by stage with every intermediate matrix materialised (the composed
+  -- function matrices of the Core definition recompute shared entries exponentially often)
+  let pv := ncols data
+  let wd := matFn (fnMat n pv (mmul n (matFn w) (matFn data)))
+  let fdata := matFn (fnMat n pv (spmFilter runs wd))
+  let beta := matFn (fnMat q pv (mmul n (matFn pinv) fdata))
+  let res : Nat → Nat → Rat := fun r p => fdata r p - mmul q (matFn x) beta r p
+  pure (obj [("residuals", ofList (ofList ofRat) (fnMat n pv res)),
+             ("beta", ofList (ofList ofRat) (fnMat q pv beta))])
 
 def relocateOp (j : Json) : R Json := do
   let base ← fld j "base" >>= asS
   let f ← fld j "fpath" >>= asS
   pure (ofS (relocate base f))
+
+def ofDescs (l : List (Str × Option Str)) : Json :=
+  obj (l.map (fun kv => (String.ofList kv.1, ofOS kv.2)))
+
+/-- one fMRIPrep run found in the tree: entities, dataset descriptors, the files its accessors read -/
+def runView (p : Str) : Json :=
+  match bidsParse p with
+  | .error e => obj [("path", ofS p), ("exc", Json.str e)]
+  | .ok b =>
+    obj [("path", ofS p), ("ent", ofEnt b), ("descriptors", ofDescs (datasetDescriptors b)),
+         ("meta", ofS (findMetaFor b)), ("events", ofS (findEventsFor b)),
+         ("confounds", ofS (findTableSiblingOf b "confounds".toList "timeseries".toList)),
+         ("mask", ofS (findMriSiblingOf b "brain".toList "mask".toList)),
+         ("parc", ofS (findMriSiblingOf b "aparcaseg".toList "dseg".toList)),
+         ("key", match bidsParse (findMriSiblingOf b "aparcaseg".toList "dseg".toList) with
+                 | .ok pb => ofS (findTableKeyFor pb)
+                 | .error e => exc e),
+         ("repr", ofS (reprPath p))]
+
+/-- `find_fmriprep_runs` on a listed tree -/
+def tree (j : Json) : R Json := do
+  let files ← fld j "files" >>= asList asS
+  let deriv ← fld j "derivative" >>= asS
+  let desc ← fld j "desc" >>= asS
+  let tasks ← asOpt (asList asS) (fldD j "tasks" Json.null)
+  pure (ofList runView (findDerivativeFiles files deriv desc tasks))
+
+/-- `get_info_from_spm_mat` (names, raw files) and the `reg_of_interest` selections -/
+def spmInfo (j : Json) : R Json := do
+  let names ← fld j "names" >>= asList asS
+  let raw ← fld j "raw" >>= asList asS
+  let base ← fld j "base" >>= asS
+  let path ← fld j "path" >>= asS
+  let betaFiles ← fld j "beta_files" >>= asList asS
+  let reg ← fld j "reg" >>= asList asInt
+  match names.mapM parseRegName with
+  | .error e => pure (exc e)
+  | .ok parsed =>
+    let runNo := parsed.map (·.1)
+    let bnames := parsed.map (·.2)
+    pure (obj [
+      ("run_number", ofList ofNat runNo), ("beta_names", ofList ofS bnames),
+      ("rawdata_files", ofList ofS (raw.map (relocate base))),
+      ("betas_files", ofList (ofOpt ofS)
+        ((selectBetas betaFiles reg).map (fun o => o.map (fun f => path ++ '/' :: f)))),
+      ("betas_reg_name", ofList (ofOpt ofS) (selectBetas bnames reg)),
+      ("betas_run_number", ofList (ofOpt ofNat) (selectBetas runNo reg)),
+      ("resid_reg_name", ofList (ofOpt ofS) (selectResiduals bnames reg)),
+      ("resid_run_number", ofList (ofOpt ofNat) (selectResiduals runNo reg)),
+      ("resid_rows", ofList (ofOpt ofNat) (selectResiduals (List.range names.length) reg))])
 
 def handle : Handler := fun op j =>
   match op with
@@ -196,6 +252,8 @@ def handle : Handler := fun op j =>
   | "c20.spm" => some (spm j)
   | "c20.spm_resid" => some (spmResid j)
   | "c20.relocate" => some (relocateOp j)
+  | "c20.tree" => some (tree j)
+  | "c20.spm_info" => some (spmInfo j)
   | _ => none
 
 end Rsa.Drv.C20
